@@ -182,3 +182,26 @@ func TestDevXCheck(t *testing.T) {
 		}
 	})
 }
+
+// VERIF_DEV=regress: (re)writes the regress/C03-falsealarm-*.json files (cases that once fired because
+// of mistakes in this check, see NOTES.md).
+func TestDevWriteRegress(t *testing.T) {
+	if os.Getenv("VERIF_DEV") != "regress" {
+		t.Skip("development aid")
+	}
+	empty := func() *minijs.Node { return &minijs.Node{K: "empty"} }
+	cases := map[string]treeCase{
+		"asi-before-empty-statement": {Prog: minijs.Program(minijs.ExprStmt(minijs.Id("a")), empty(), minijs.ExprStmt(minijs.Id("b"))), Decor: []byte{0}, Trivia: []byte{1}},
+		"noin-relational-chain-under-extra-parens": {Prog: minijs.Program(&minijs.Node{K: "for", Kids: []*minijs.Node{
+			minijs.Bin("<", minijs.Bin("in", minijs.Id("a"), minijs.Id("b")), minijs.Id("c")), nil, nil, empty()}}), Decor: []byte{1, 0, 8, 0, 0, 1, 63, 0, 15, 0}, Trivia: []byte{0}},
+		"two-dot-names-one-unicode": {Prog: minijs.Program(minijs.ExprStmt(minijs.Dot(minijs.Dot(minijs.Id("get"), "\u00e9"), "\u16ee"))), Decor: []byte{0}, Trivia: []byte{0}},
+		"zwj-in-function-name":      {Prog: minijs.Program(minijs.ExprStmt(&minijs.Node{K: "func", Name: "a\u200db"})), Decor: []byte{0}, Trivia: []byte{0}},
+	}
+	for name, c := range cases {
+		raw, _ := json.Marshal(c)
+		b, _ := json.MarshalIndent(map[string]interface{}{"property": "C03", "facet": "roundtrip", "case": json.RawMessage(raw), "fail": "false alarm of the check, corrected (props/c03/NOTES.md)"}, "", " ")
+		if err := os.WriteFile("../../regress/C03-falsealarm-"+name+".json", append(b, '\n'), 0o644); err != nil {
+			t.Fatal(err)
+		}
+	}
+}
